@@ -116,3 +116,218 @@ Example program_rule_node_accepted :
   Run.C15.judge (Run.C15.mkCase reach_prog reach_base reach_store false
                    [Run.C15.mkGoal (2, [CNum 2]) true [reach2 1%nat]]) = 0.
 Proof. vm_compute. reflexivity. Qed.
+
+(* ==================================================================================
+   Round 2 (seeded/C15-4: the premise accumulators of alternative body solutions share one
+   backing array - alternatives of one goal report different bindings but carry the same
+   premises). Statements:
+   3. alternatives_bindings_agree - for ALL programs, stores, ancestors: two accepted nodes of
+      one rule with the same premise kinds / facts report the same value for every variable
+      that is an argument of a positive body atom. So the oracle of checks/c15.py
+      (alt_findings: alternatives of one rule that differ in such a binding but have equal
+      premises) can never fire on two valid derivations, and whenever it fires check_proof
+      rejects at least one of the two;
+   4. aliased_alternatives_refuted / aliased_second_alternative_refuted - the seeded observation
+      gets verdict 12 from Run.C15.judge (every alternative is judged, not only the first);
+      own_premises_accepted - the unchanged tree's answer gets 0.
+   ================================================================================== *)
+From MV Require Import Datalog.SyntaxProofs.
+
+(* ==== round 2 (seeded/C15-4): alternatives of one goal ==== *)
+
+(* the constant a fact carries at the first argument position at which the atom has the variable v *)
+Fixpoint arg_at (ts : list term) (v : Z) (cs : list const) : option const :=
+  match ts, cs with
+  | t :: ts', c :: cs' =>
+      match t with
+      | TVar w => if Z.eqb w v then Some c else arg_at ts' v cs'
+      | _ => arg_at ts' v cs'
+      end
+  | _, _ => None
+  end.
+
+Lemma unify1_keeps s pv c u v d :
+  unify1 s pv c = Some u -> lookup v s = Some d -> lookup v u = Some d.
+Proof.
+  intros Hu Hl. destruct pv as [e|w]; cbn [unify1] in Hu.
+  - destruct (const_eqb e c); [|discriminate]. injection Hu as <-. exact Hl.
+  - destruct (lookup w s) as [e|] eqn:E.
+    + destruct (const_eqb e c); [|discriminate]. injection Hu as <-. exact Hl.
+    + injection Hu as <-. cbn [lookup]. destruct (Z.eqb_spec v w) as [->|_]; [congruence|exact Hl].
+Qed.
+
+Lemma unify_args_keeps : forall pvs s cs u v d,
+  unify_args s pvs cs = Some u -> lookup v s = Some d -> lookup v u = Some d.
+Proof.
+  induction pvs as [|pv pvs IH]; intros s cs u v d Hu Hl; destruct cs as [|c cs]; cbn [unify_args] in Hu; try discriminate.
+  - injection Hu as <-. exact Hl.
+  - destruct (unify1 s pv c) as [s'|] eqn:E; [|discriminate].
+    eapply IH; [exact Hu|]. eapply unify1_keeps; eauto.
+Qed.
+
+Lemma unify_args_at s0 : forall ts s pvs cs u v c,
+  map_opt (eval_term s0) ts = Some pvs -> unify_args s pvs cs = Some u ->
+  In (TVar v) ts -> lookup v s0 = Some c -> arg_at ts v cs = Some c.
+Proof.
+  induction ts as [|t ts IH]; intros s pvs cs u v c He Hu Hin Hl; [destruct Hin|].
+  cbn [map_opt] in He.
+  destruct (eval_term s0 t) as [pv|] eqn:Et; [|discriminate].
+  destruct (map_opt (eval_term s0) ts) as [pvs'|] eqn:Em; [|discriminate].
+  injection He as <-.
+  destruct cs as [|c0 cs]; cbn [unify_args] in Hu; [discriminate|].
+  destruct (unify1 s pv c0) as [s'|] eqn:Eu; [|discriminate].
+  assert (Hrest : In (TVar v) ts -> arg_at ts v cs = Some c) by (intro Hi; eapply IH; eauto).
+  destruct t as [w|k|f args]; cbn [arg_at].
+  - destruct (Z.eqb_spec w v) as [->|Hne].
+    + cbn [eval_term] in Et. rewrite Hl in Et. injection Et as <-.
+      cbn [unify1] in Eu. destruct (const_eqb c c0) eqn:Ec; [|discriminate].
+      apply const_eqb_spec in Ec. subst c0. reflexivity.
+    + destruct Hin as [Heq|Hi]; [injection Heq as ->; contradiction|auto].
+  - destruct Hin as [Heq|Hi]; [discriminate|auto].
+  - destruct Hin as [Heq|Hi]; [discriminate|auto].
+Qed.
+
+Lemma eval_vvar_unbound s t v : eval_term s t = Some (VVar v) -> lookup v s = None.
+Proof.
+  destruct t as [w|k|f args]; cbn [eval_term]; intro H.
+  - destruct (lookup w s) eqn:E; [discriminate|]. injection H as <-. exact E.
+  - discriminate.
+  - match type of H with match ?x with _ => _ end = _ => destruct x end; [|discriminate].
+    match type of H with match ?x with _ => _ end = _ => destruct x end; discriminate.
+Qed.
+
+Lemma lookup_cons_other v w c s d : lookup w s = None -> lookup v s = Some d -> lookup v ((w, c) :: s) = Some d.
+Proof.
+  intros Hn Hl. cbn [lookup]. destruct (Z.eqb_spec v w) as [->|_]; [congruence|exact Hl].
+Qed.
+
+Lemma step_pure_keeps p s u v d :
+  step_pure p s = Some [u] -> lookup v s = Some d -> lookup v u = Some d.
+Proof.
+  intros Hs Hl. destruct p as [a|a|l r|l r|op l r]; cbn [step_pure] in Hs; try discriminate.
+  - destruct (eval_term s l) as [[a|x]|] eqn:El; destruct (eval_term s r) as [[b|y]|] eqn:Er; try discriminate.
+    + destruct (const_eqb a b); [|discriminate]. injection Hs as <-. exact Hl.
+    + injection Hs as <-. apply lookup_cons_other; [eapply eval_vvar_unbound; eauto|exact Hl].
+    + injection Hs as <-. apply lookup_cons_other; [eapply eval_vvar_unbound; eauto|exact Hl].
+    + destruct (x =? y); [|discriminate]. injection Hs as <-. exact Hl.
+  - destruct (eval_term s l) as [[a|x]|] eqn:El; destruct (eval_term s r) as [[b|y]|] eqn:Er; try discriminate.
+    destruct (const_eqb a b); [discriminate|]. injection Hs as <-. exact Hl.
+  - destruct (eval_term s l) as [[a|x]|] eqn:El; destruct (eval_term s r) as [[b|y]|] eqn:Er; try discriminate.
+    destruct (eval_cmp op a b) as [[|]|]; try discriminate. injection Hs as <-. exact Hl.
+Qed.
+
+Ltac dmatch H :=
+  match type of H with
+  | match ?x with _ => _ end = _ => let E := fresh "E" in destruct x eqn:E; try discriminate
+  end.
+
+(* Two instances of one rule body that check_body accepts over the SAME premise heads agree on
+   every reported variable that is an argument of a positive body atom. *)
+Lemma check_body_bindings_agree St nl : forall body s1 s2 hs t1 t2,
+  check_body St nl body s1 hs = Some t1 -> check_body St nl body s2 hs = Some t2 ->
+  forall a v c1 c2, In (PAtom a) body -> In (TVar v) (aargs a) ->
+  lookup v s1 = Some c1 -> lookup v s2 = Some c2 -> c1 = c2.
+Proof.
+  induction body as [|p b IH]; intros s1 s2 hs t1 t2 H1 H2 a v c1 c2 Hin Hv L1 L2; [destruct Hin|].
+  destruct p as [a0|a0|l r|l r|op l r]; cbn [check_body] in H1, H2.
+  - destruct hs as [|[k g] hs']; [discriminate|].
+    destruct (is_pos k); [|discriminate].
+    destruct (eval_args s1 (aargs a0)) as [pvs1|] eqn:E1; [|discriminate].
+    destruct (match_fact (apred a0) pvs1 s1 g) as [u1|] eqn:M1; [|discriminate].
+    destruct (eval_args s2 (aargs a0)) as [pvs2|] eqn:E2; [|discriminate].
+    destruct (match_fact (apred a0) pvs2 s2 g) as [u2|] eqn:M2; [|discriminate].
+    unfold match_fact in M1, M2. destruct (fst g =? apred a0); [|discriminate].
+    destruct Hin as [Heq|Hin].
+    + injection Heq as ->.
+      pose proof (unify_args_at s1 _ _ _ _ _ _ _ E1 M1 Hv L1) as A1.
+      pose proof (unify_args_at s2 _ _ _ _ _ _ _ E2 M2 Hv L2) as A2.
+      congruence.
+    + eapply (IH u1 u2 hs' t1 t2 H1 H2 a v c1 c2 Hin Hv); eapply unify_args_keeps; eauto.
+  - destruct Hin as [Heq|Hin]; [discriminate|].
+    repeat dmatch H1; repeat dmatch H2; subst; try discriminate;
+      try (eapply (IH s1 s2 _ t1 t2); eauto; fail).
+    all: match goal with
+         | Ha : _ = ?x :: ?y, Hb : _ = ?x' :: ?y' |- _ => rewrite Ha in Hb; injection Hb; intros; subst
+         end; eapply (IH s1 s2 _ t1 t2); eauto.
+  - destruct Hin as [Heq|Hin]; [discriminate|].
+    destruct (step_pure (PEq l r) s1) as [[|u1 [|]]|] eqn:S1; try discriminate.
+    destruct (step_pure (PEq l r) s2) as [[|u2 [|]]|] eqn:S2; try discriminate.
+    eapply (IH u1 u2 hs t1 t2 H1 H2 a v c1 c2 Hin Hv); eapply step_pure_keeps; eauto.
+  - destruct Hin as [Heq|Hin]; [discriminate|].
+    destruct (step_pure (PIneq l r) s1) as [[|u1 [|]]|] eqn:S1; try discriminate.
+    destruct (step_pure (PIneq l r) s2) as [[|u2 [|]]|] eqn:S2; try discriminate.
+    eapply (IH u1 u2 hs t1 t2 H1 H2 a v c1 c2 Hin Hv); eapply step_pure_keeps; eauto.
+  - discriminate.
+Qed.
+
+Lemma check_node_body P base St anc ri bs f partial prems c :
+  nth_error P ri = Some c ->
+  check_node P base St anc (PDerived ri bs f partial prems) = true ->
+  exists t, check_body St true (cbody c) bs (map head_of prems) = Some t.
+Proof.
+  intros Hn H. cbn [check_node] in H. rewrite Hn in H.
+  apply andb_true_iff in H as [H _]. apply andb_true_iff in H as [_ H].
+  apply andb_true_iff in H as [_ H]. unfold check_rule in H.
+  destruct (check_body St true (cbody c) bs (map head_of prems)) as [t|]; [eauto|discriminate].
+Qed.
+
+(* Alternatives: two accepted nodes of the same rule whose premises have the same kinds and
+   facts report the same value for every variable that is an argument of a positive body atom.
+   Contrapositive = the oracle alt_findings of checks/c15.py: alternatives of one rule that
+   differ in such a binding but carry the same premises cannot both be valid derivations (for
+   all programs, stores, goals, ancestors). *)
+Theorem alternatives_bindings_agree : forall P base St anc1 anc2 ri c bs1 bs2 f1 f2 pt1 pt2 prems1 prems2,
+  nth_error P ri = Some c ->
+  check_node P base St anc1 (PDerived ri bs1 f1 pt1 prems1) = true ->
+  check_node P base St anc2 (PDerived ri bs2 f2 pt2 prems2) = true ->
+  map head_of prems1 = map head_of prems2 ->
+  forall a v c1 c2, In (PAtom a) (cbody c) -> In (TVar v) (aargs a) ->
+  lookup v bs1 = Some c1 -> lookup v bs2 = Some c2 -> c1 = c2.
+Proof.
+  intros P base St anc1 anc2 ri c bs1 bs2 f1 f2 pt1 pt2 prems1 prems2 Hn H1 H2 Hh a v c1 c2 Ha Hv L1 L2.
+  destruct (check_node_body _ _ _ _ _ _ _ _ _ _ Hn H1) as [t1 B1].
+  destruct (check_node_body _ _ _ _ _ _ _ _ _ _ Hn H2) as [t2 B2].
+  rewrite Hh in B1.
+  eapply (check_body_bindings_agree St true (cbody c) bs1 bs2 _ t1 t2 B1 B2 a v c1 c2); eauto.
+Qed.
+Print Assumptions alternatives_bindings_agree.
+
+(* seeded C15-4: a(1). b(1). c(1). d(1,10). d(1,20). d(1,30). r(X) :- a(X), b(X), c(X), d(X,Y).
+   (p0..p3 = a..d, p4 = r), Explain(r(1), MaxProofs 3) *)
+Definition wide_prog : list clause :=
+  [mkClause (mkAtom 4 [TVar 1])
+     [PAtom (mkAtom 0 [TVar 1]); PAtom (mkAtom 1 [TVar 1]); PAtom (mkAtom 2 [TVar 1]); PAtom (mkAtom 3 [TVar 1; TVar 2])] []].
+Definition wide_base : list fact :=
+  [(0, [CNum 1]); (1, [CNum 1]); (2, [CNum 1]); (3, [CNum 1; CNum 10]); (3, [CNum 1; CNum 20]); (3, [CNum 1; CNum 30])].
+Definition wide_store : list fact := wide_base ++ [(4, [CNum 1])].
+(* the alternative that reports Y = y and carries the premise d(1, d) *)
+Definition wide_alt (y d : Z) : pnode :=
+  PDerived 0%nat [(1, CNum 1); (2, CNum y)] (4, [CNum 1]) false
+    [PLeaf (0, [CNum 1]); PLeaf (1, [CNum 1]); PLeaf (2, [CNum 1]); PLeaf (3, [CNum 1; CNum d])].
+
+(* what the seeded tree returned: bindings Y = 10, 20, 30, all three with the premise d(1,30) *)
+Theorem aliased_alternatives_refuted :
+  Run.C15.judge (Run.C15.mkCase wide_prog wide_base wide_store true
+                   [Run.C15.mkGoal (4, [CNum 1]) true [wide_alt 10 30; wide_alt 20 30; wide_alt 30 30]]) = 12.
+Proof. vm_compute. reflexivity. Qed.
+Print Assumptions aliased_alternatives_refuted.
+
+(* ... a single bad alternative behind a good first one is enough (EVERY alternative is judged) *)
+Theorem aliased_second_alternative_refuted :
+  Run.C15.judge (Run.C15.mkCase wide_prog wide_base wide_store false
+                   [Run.C15.mkGoal (4, [CNum 1]) true [wide_alt 10 10; wide_alt 20 30; wide_alt 30 30]]) = 12.
+Proof. vm_compute. reflexivity. Qed.
+Print Assumptions aliased_second_alternative_refuted.
+
+(* the unchanged tree: each alternative carries its own premise *)
+Example own_premises_accepted :
+  Run.C15.judge (Run.C15.mkCase wide_prog wide_base wide_store true
+                   [Run.C15.mkGoal (4, [CNum 1]) true [wide_alt 10 10; wide_alt 20 20; wide_alt 30 30]]) = 0.
+Proof. vm_compute. reflexivity. Qed.
+
+(* the hypotheses of alternatives_bindings_agree are satisfiable with different bindings (then the premises differ) *)
+Example ex_alternatives_hyps :
+  nth_error wide_prog 0 = Some (hd (mkClause (mkAtom 0 []) [] []) wide_prog) /\
+  check_node wide_prog wide_base wide_store [] (wide_alt 10 10) = true /\
+  check_node wide_prog wide_base wide_store [] (wide_alt 20 20) = true.
+Proof. vm_compute. repeat split. Qed.
